@@ -512,6 +512,8 @@ impl<'de, 't, 'a> de::Deserializer<'de> for &'a mut Deserializer<'de, 't> {
     {
         match &self.input.as_ref() {
             ValueRef::Data(data) if data.tag() == 0 => visitor.visit_unit(),
+            // `()` is pushed as an unboxed value by `Pushable`
+            ValueRef::Int(0) => visitor.visit_unit(),
             _ => self.deserialize_any(visitor),
         }
     }
